@@ -101,6 +101,13 @@ func c02Setup(t testing.TB, sc c02Scenario, dir string) (vols []vkVol, fixtures 
 		for v := 0; v < sc.NVol; v++ {
 			plant(v, corrupt())
 		}
+	case "extended_first":
+		// the correct bytes followed by garbage
+		plant(0, append(append([]byte(nil), data...), []byte("trailing garbage")...))
+	case "extended_all":
+		for v := 0; v < sc.NVol; v++ {
+			plant(v, append(append([]byte(nil), data...), byte('x')))
+		}
 	}
 	return
 }
@@ -321,12 +328,12 @@ func c02Scenarios(thorough bool) []c02Scenario {
 	if thorough {
 		sizes = append(sizes, 1<<20+512<<10, 40000)
 	}
-	pres := []string{"none", "intact_first", "intact_last", "corrupt_first", "corrupt_last", "corrupt_all"}
+	pres := []string{"none", "intact_first", "intact_last", "corrupt_first", "corrupt_last", "corrupt_all", "extended_first", "extended_all"}
 	var out []c02Scenario
 	for _, sz := range sizes {
 		for _, nv := range []int{1, 2} {
 			for _, pre := range pres {
-				if nv == 1 && (pre == "intact_last" || pre == "corrupt_last" || pre == "corrupt_all") {
+				if nv == 1 && (pre == "intact_last" || pre == "corrupt_last" || pre == "corrupt_all" || pre == "extended_all") {
 					continue
 				}
 				out = append(out, c02Scenario{Size: sz, NVol: nv, Pre: pre})
